@@ -164,7 +164,7 @@ def read_csv(path, sep=',', word_true='True', word_false='False'):
     """
     # TODO: add `data` parameter
     with open(path, 'r') as f:
-        file_data = f.read().strip().split('\n')
+        file_data = f.read().strip('\n').split('\n')
     header, file_data = file_data[0], file_data[1:]
 
     attr_names = header.split(sep)[1:]
